@@ -105,6 +105,21 @@ class TryContext:
     handler_active: bool = False  # inside a region guarded by TRY_START
 
 
+@dataclass
+class PendingValueContext:
+    """A value parked on the operand stack while statements are compiled.
+
+    The copy of a finally block that runs on the exception path keeps the
+    exception below it (to rethrow it afterwards); a break or continue that
+    leaves the block gives the exception up and has to pop it.
+    """
+
+    stack_slots: int = 1
+    is_loop: bool = False
+    label: Optional[str] = None
+    labels: List[str] = field(default_factory=list)
+
+
 class Compiler:
     """Compiles AST to bytecode."""
 
@@ -845,7 +860,7 @@ class Compiler:
             target_label = node.label.name if node.label else None
             ctx = None
             for loop_ctx in reversed(self.loop_stack):
-                if isinstance(loop_ctx, TryContext):
+                if isinstance(loop_ctx, (TryContext, PendingValueContext)):
                     continue
                 if target_label is not None:
                     # Labeled break - find the matching label
@@ -877,6 +892,8 @@ class Compiler:
             target_label = node.label.name if node.label else None
             ctx = None
             for loop_ctx in reversed(self.loop_stack):
+                if isinstance(loop_ctx, PendingValueContext):
+                    continue
                 if isinstance(loop_ctx, TryContext) or not loop_ctx.is_loop:
                     # try regions, switch and labelled non-loops are not continue targets
                     if (
@@ -958,7 +975,9 @@ class Compiler:
                     catch_done = self._emit_jump(OpCode.JUMP)
                     self._patch_jump(catch_guard)
                     self.loop_stack.pop()
+                    self.loop_stack.append(PendingValueContext())  # the exception
                     self._compile_finalizer(node.finalizer)
+                    self.loop_stack.pop()
                     self._emit(OpCode.THROW)  # Rethrow the catch block's exception
                     self.loop_stack.append(try_ctx)
                     self._patch_jump(catch_done)
@@ -969,7 +988,9 @@ class Compiler:
                 # No catch, only finally - exception is on stack
                 # Run finally then rethrow
                 self.loop_stack.pop()
+                self.loop_stack.append(PendingValueContext())  # the exception
                 self._compile_finalizer(node.finalizer)
+                self.loop_stack.pop()
                 self.loop_stack.append(try_ctx)
                 self._emit(OpCode.THROW)  # Rethrow the exception
 
